@@ -456,6 +456,53 @@ pub fn run(seed: u64, n: usize, out: &mut dyn Write) {
                 }
             }
 
+            // ---- reorder (statistics of connection ids over the sentences) and map with its output
+            steps.push("reorder");
+            {
+                let (st_r, _) = run_bin(&env, "reorder", &["-i".into(), p(&env, "sys.dic.zst"), "-o".into(), p(&env, "reordered")], Some(&input));
+                let lib = guarded(|| -> Result<(Vec<u8>, Vec<u8>, Vec<u16>, Vec<u16>), ()> {
+                    let d = Dictionary::read(&bytes[..]).map_err(|_| ())?;
+                    let tokenizer = Tokenizer::new(d);
+                    let mut w = tokenizer.new_worker();
+                    w.init_connid_counter();
+                    for s in &sents {
+                        w.reset_sentence(s);
+                        w.tokenize();
+                        w.update_connid_counts();
+                    }
+                    let (lp, rp) = w.compute_connid_probs();
+                    let render = |v: &[(usize, f64)]| -> Vec<u8> {
+                        let mut o = vec![];
+                        for (i, pr) in v {
+                            o.extend_from_slice(format!("{i}\t{pr}\n").as_bytes());
+                        }
+                        o
+                    };
+                    let ids = |v: &[(usize, f64)]| -> Vec<u16> { v.iter().map(|x| x.0 as u16).collect() };
+                    Ok((render(&lp), render(&rp), ids(&lp), ids(&rp)))
+                });
+                if st_r != status_of(&lib) {
+                    diffs.push(format!("reorder-status:{st_r}/{}", status_of(&lib)));
+                } else if let Some(Ok((lm, rm, lids, rids))) = lib {
+                    if read(&env, "reordered.lmap") != lm || read(&env, "reordered.rmap") != rm {
+                        diffs.push("reorder-files".to_string());
+                    }
+                    // the files it wrote are a valid input of `map` (C13: always a valid mapping), with the library's result
+                    let (st_m, _) = run_bin(&env, "map", &["-i".into(), p(&env, "sys.dic.zst"), "-m".into(), p(&env, "reordered"), "-o".into(), p(&env, "reordered.dic.zst")], None);
+                    let libm = guarded(|| {
+                        Dictionary::read(&bytes[..]).map_err(|_| ())?.map_connection_ids_from_iter(lids.clone(), rids.clone()).map_err(|_| ())
+                    });
+                    if st_m != "ok" || status_of(&libm) != "ok" {
+                        diffs.push(format!("reorder-mapping-rejected:{st_m}/{}", status_of(&libm)));
+                    } else if let Some(Ok(md)) = libm {
+                        match unzstd_file(&env, "reordered.dic.zst") {
+                            Some(mb) if mb == image_of(&md) => {}
+                            _ => diffs.push("reorder-map-image".to_string()),
+                        }
+                    }
+                }
+            }
+
             // ---- map
             steps.push("map");
             if let Some(Ok(d)) = guarded(|| Dictionary::read(&bytes[..]).map_err(|_| ())) {
